@@ -55,7 +55,12 @@ ASSUME_WRITER = [
 def _stub_lines(names):
     out = []
     for n in sorted(names):
-        out.append("%s: %s" % (n, stubs.CONTRACTS.get(n, "trusted model (see engine/llsym/stubs.py)")))
+        c = stubs.CONTRACTS.get(n)
+        if c is None and "vector" in n and "resize" in n:
+            c = stubs.CONTRACTS['std::vector<T>::resize']
+        if c is None and "basic_string" in n:
+            c = stubs.CONTRACTS['std::string']
+        out.append("%s: %s" % (n, c or "trusted model (see engine/llsym/stubs.py)"))
     return out
 
 
@@ -76,6 +81,10 @@ def _merge(part, results):
         part["obligations"].extend(r["obligations"])
         for pr in r["problems"]:
             part["inconclusive"].append("%s: %s" % (r["tag"], pr))
+        for nm, xs in (r.get("xcheck") or {}).items():
+            acc = part.setdefault("cross_check", {}).setdefault(nm, dict(agree=0, undecided=0, disagree=0))
+            for kk in acc:
+                acc[kk] += xs.get(kk, 0)
         s = r["stats"]
         if not s:
             continue
@@ -87,6 +96,11 @@ def _merge(part, results):
         fn_static.update(s["fn_static"])
         used.update(s["stubs"])
     part["solver_s"] = round(part["solver_s"], 3)
+    for nm, acc in (part.get("cross_check") or {}).items():
+        ver = {"z3-binary": "z3 4.8 binary (/usr/bin/z3)", "cvc5": "cvc5 binary"}.get(nm, nm)
+        lab = "%s: cross-check of %d sampled property queries, %d agree, %d undecided" % (ver, sum(acc.values()), acc["agree"], acc["undecided"])
+        if lab not in part["solvers"]:
+            part["solvers"].append(lab)
     part["functions_encoded"] = ["%s [%d IR instructions, %d executed]" % (k, fn_static.get(k, 0), v) for k, v in sorted(fn_dyn.items())]
     part["stubs"] = _stub_lines(used)
     for o in part["obligations"]:
@@ -225,6 +239,8 @@ def _confirm(part, prop, native, results, extra_ops=None):
                    "native observation (release build): %s" % observed[:200]]
             if dbg_note:
                 hdr.append(dbg_note)
+            if c["must"] == "asan":
+                hdr.append("memory-safety violation: add  -g -fsanitize=address  to the compile command to observe it")
             path = native.artefact(prop, k, smp["argv"], hdr)
             v = {"key": k, "obligation": c["obligation"], "desc": c["desc"], "model": smp["model"], "argv": smp["argv"],
                  "replay": path, "replay_confirmed": bool(confirmed), "native": observed[:300], "debug_build": dbg_note,
@@ -257,7 +273,7 @@ def _kernel_part(name, prop, tier, seed, modes):
     for N in Ns:
         for nd in builds:
             base = dict(N=N, ndebug=nd, ir=irs[nd], seed=seed, budget_s=budget, samples=(24 if thorough else 3),
-                        stride=(1 if thorough else 2))
+                        stride=(1 if thorough else 2), xcheck=(6 if thorough else 0))
             if "writer" in modes:
                 for op in cc_common.WRITE_OPS:
                     b = dict(base, N=12) if (op in ("WriteVarU64", "WriteVarI64") and N < 10) else base
